@@ -249,6 +249,16 @@ def run(chk: Check, model):
                           "to restore the node from its info", chk.loc(fi_ni))
             continue
         got = rkw.get(p)
+        if got is None:
+            # the keyword arguments assembled as one mapping, `cls(**{**from_info, **kwargs})`: a later entry overrides an earlier one
+            for k_, v_ in ret[3]:
+                if k_ != "**":
+                    continue
+                lit = dict(v_[1]) if v_[0] == "dict" else None
+                if lit is not None and T.const(p) in lit:
+                    got = lit[T.const(p)]
+                elif v_ == S("**kwargs") and got is not None:
+                    got = T.mk_call("**kwargs.get", [T.const(p), got])
         want = T.mk_call("**kwargs.get", [T.const(p), T.mk_attr(S("info"), fields[0])])
         chk.add("C16.info", inst, got == want, f"cls({p}=...) is restored from {T.show(got)[:120] if got else None}, expected kwargs.get('{p}', info.{fields[0]})",
                 chk.loc(fi))
@@ -257,7 +267,9 @@ def run(chk: Check, model):
     ok = inp is not None and inp[0] == "comp" and inp[1] == "dict" and inp[2][0] == "tuple"
     if ok:
         k, v = inp[2][1]
-        ok = (k[0] == "attr" and k[2] == "name" and k[1][0] == "attr" and k[1][2] == "output_node") and (v[0] == "attr" and v[2] == "info") and not inp[4]
+        # (the key read off the connection, or off its info: the InputInfo field that Connection.info writes from output_node.name)
+        via_info = k[0] == "attr" and k[1] == v and written.get(k[2]) == S("self.output_node.name")
+        ok = ((k[0] == "attr" and k[2] == "name" and k[1][0] == "attr" and k[1][2] == "output_node" and k[1][1] == v[1]) or via_info) and (v[0] == "attr" and v[2] == "info") and not inp[4]
         ok = ok and inp[3][0][1] == T.mk_call("self.inputs.items", [])
     chk.add("C16.info", "NodeInfo.inputs", bool(ok), f"NodeInfo.inputs = {T.show(inp)[:200] if inp else None}, expected {{c.output_node.name: c.info for all inputs}}", chk.loc(fi_ni))
 
